@@ -40,6 +40,12 @@ def beforeFirst (p : Bytes → Bool) : List Bytes → List Bytes
   | [] => []
   | a :: as => if p a then [] else a :: beforeFirst p as
 
+/-- a parameters query answered with data: the last exchange of a completed bring-up -/
+def bringUpCompleted : List Bytes → List Resp → Bool
+  | a :: as, r :: rs =>
+    ((a.getD 1 0).toNat == 0x11 && (match r with | .data _ => true | _ => false)) || bringUpCompleted as rs
+  | _, _ => false
+
 def c11 (m : Mode) (cmd : String) (script : List Resp) (commIssue0 : Bool) (o : LineObs) : Bool :=
   let as := apdus o.events
   let dev := deviceErrorCode m
@@ -52,7 +58,10 @@ def c11 (m : Mode) (cmd : String) (script : List Resp) (commIssue0 : Bool) (o : 
       | .disconnect :: .connect true :: _ =>
         ((as.map fun a => (a.getD 1 0).toNat).take 2 == [0x06, 0x43] || as.length < 2) &&
         (!(as.any (isCommandApdu cmd)) ||
-          ((beforeFirst (isCommandApdu cmd) as).any fun a => (a.getD 1 0).toNat == 0x11))
+          ((beforeFirst (isCommandApdu cmd) as).any fun a => (a.getD 1 0).toNat == 0x11)) &&
+        -- "the repair is retried on the following one": the pending-repair flag may only be cleared by a
+        -- bring-up that ran to its end
+        (o.commIssue || bringUpCompleted as script)
       | _ => false)
    else true) &&
   -- a link fault during the exchange: device-error reply, manager keeps running,
